@@ -74,6 +74,7 @@ fn generate(prop: &str, seed: u64, thorough: bool) -> Option<Plan> {
         "C11" => Some(scen_udp::gen_c11_system(seed, thorough)),
         "C11srv" => Some(scen_hsrv::gen_c11_srv(seed, thorough)),
         "C11users" => Some(scen_adv::gen_c11_users(seed, thorough)),
+        "C11late" => Some(scen_adv::gen_c11_late(seed, thorough)),
         "C12" => Some(scen_c12::gen_c12(seed, thorough)),
         "C12wrap" => Some(scen_c12::gen_c12_wrap(seed, thorough)),
         "C13" => Some(scen_local::gen_c13(seed, thorough)),
@@ -90,6 +91,7 @@ fn execute(plan: &Plan) -> Outcome {
         "tcp-system" => scen_tcp::execute_c01(plan),
         "independence" => scen_tcp::execute_c09(plan),
         "shared-session-id" => scen_adv::execute_c09_sid(plan),
+        "late-copies" => scen_adv::execute_c11_late(plan),
         "independence-udp" => scen_udp::execute_c09_udp(plan),
         "link-seg" => scen_link::execute_c04(plan),
         "link-tamper" => scen_link::execute_c05(plan),
